@@ -1,0 +1,117 @@
+//go:build verif
+// +build verif
+
+package vbft
+
+import (
+	"fmt"
+
+	"github.com/ontio/ontology-crypto/keypair"
+	"github.com/polynetwork/poly/common"
+	vconfig "github.com/polynetwork/poly/consensus/vbft/config"
+	"github.com/polynetwork/poly/core/types"
+)
+
+// Message delivery for the verification harness: every message is checked with its own real Verify method
+// against the public key the peer pool holds for the claimed author (as Server.run does for the sending peer)
+// and, if accepted, handed to the real BlockPool.  No behaviour of the package is changed.
+
+// VerifProposal is an opaque handle on a proposal message.
+type VerifProposal struct{ msg *blockProposalMsg }
+
+// VerifNewProposal wraps a candidate block (and its empty variant) signed by the proposer named in info.
+func VerifNewProposal(block, emptyBlock *types.Block, info *vconfig.VbftBlockInfo) *VerifProposal {
+	return &VerifProposal{msg: &blockProposalMsg{Block: &Block{Block: block, EmptyBlock: emptyBlock, Info: info}}}
+}
+
+func (v *VerifPool) pk(idx uint32) (keypair.PublicKey, error) {
+	pk := v.Srv.peerPool.GetPeerPubKey(idx)
+	if pk == nil {
+		return nil, fmt.Errorf("no public key for peer %d", idx)
+	}
+	return pk, nil
+}
+
+// DeliverProposal returns (verification error, pool error); the pool is not touched when verification fails.
+func (v *VerifPool) DeliverProposal(p *VerifProposal) (error, error) {
+	pk, err := v.pk(p.msg.Block.getProposer())
+	if err != nil {
+		return err, nil
+	}
+	if err := p.msg.Verify(pk); err != nil {
+		return err, nil
+	}
+	return nil, v.Pool.newBlockProposal(p.msg)
+}
+
+func (v *VerifPool) DeliverEndorse(blk, endorser, proposer uint32, hash common.Uint256, forEmpty bool, sig []byte) (error, error) {
+	msg := &blockEndorseMsg{Endorser: endorser, EndorsedProposer: proposer, BlockNum: blk, EndorsedBlockHash: hash,
+		EndorseForEmpty: forEmpty, EndorserSig: sig}
+	pk, err := v.pk(endorser)
+	if err != nil {
+		return err, nil
+	}
+	if err := msg.Verify(pk); err != nil {
+		return err, nil
+	}
+	return nil, v.Pool.newBlockEndorsement(msg)
+}
+
+func (v *VerifPool) DeliverCommit(blk, committer, proposer uint32, hash common.Uint256, forEmpty bool,
+	endorsers map[uint32][]byte, sig []byte) (error, error) {
+	msg := &blockCommitMsg{Committer: committer, BlockProposer: proposer, BlockNum: blk, CommitBlockHash: hash,
+		CommitForEmpty: forEmpty, EndorsersSig: endorsers, CommitterSig: sig}
+	pk, err := v.pk(committer)
+	if err != nil {
+		return err, nil
+	}
+	if err := msg.Verify(pk); err != nil {
+		return err, nil
+	}
+	return nil, v.Pool.newBlockCommitment(msg)
+}
+
+// HasProposal tells whether the pool holds a proposal of the given proposer for block blk.
+func (v *VerifPool) HasProposal(blk, proposer uint32) bool {
+	for _, p := range v.Pool.getBlockProposals(blk) {
+		if p.Block.getProposer() == proposer {
+			return true
+		}
+	}
+	return false
+}
+
+// SealSignatures runs the real addSignaturesToBlockLocked on a copy of the pooled proposal of `proposer`
+// and returns the bookkeepers and signatures it puts into the header that would be sealed, plus that header's hash.
+func (v *VerifPool) SealSignatures(blk, proposer uint32, forEmpty bool) ([]keypair.PublicKey, [][]byte, common.Uint256, error) {
+	var prop *blockProposalMsg
+	for _, p := range v.Pool.getBlockProposals(blk) {
+		if p.Block.getProposer() == proposer {
+			prop = p
+		}
+	}
+	if prop == nil {
+		return nil, nil, common.Uint256{}, fmt.Errorf("no proposal of %d", proposer)
+	}
+	cp := func(b *types.Block) *types.Block {
+		if b == nil {
+			return nil
+		}
+		h := *b.Header
+		h.Bookkeepers = append([]keypair.PublicKey{}, b.Header.Bookkeepers...)
+		h.SigData = append([][]byte{}, b.Header.SigData...)
+		return &types.Block{Header: &h, Transactions: b.Transactions}
+	}
+	b := &Block{Block: cp(prop.Block.Block), EmptyBlock: cp(prop.Block.EmptyBlock), Info: prop.Block.Info}
+	v.Pool.lock.Lock()
+	err := v.Pool.addSignaturesToBlockLocked(b, forEmpty)
+	v.Pool.lock.Unlock()
+	if err != nil {
+		return nil, nil, common.Uint256{}, err
+	}
+	sealed := b.Block
+	if forEmpty {
+		sealed = b.EmptyBlock
+	}
+	return sealed.Header.Bookkeepers, sealed.Header.SigData, sealed.Hash(), nil
+}
